@@ -7,10 +7,16 @@ Monitors on the real entry points:
    argument and a deep digest of every dict / list argument before and after the call, return or raise,
    with read-only input arrays and option dictionaries reused across calls;
  * determinism: every deterministic call repeated once must give an identical result."""
+import json
+import os
+import subprocess
+import sys
+import zlib
+
 import numpy as np
 
 from .. import gens
-from ..harness import digest, quiet, watchdog, WatchdogTimeout
+from ..harness import digest, quiet, watchdog, WatchdogTimeout, VERIF, REPO
 from ..monitors import call_sanitized, deep_digest
 
 MANIFEST = {
@@ -122,6 +128,23 @@ def build_table():
     T['hilberthuang_1d'] = lambda r, s: (SP.hilberthuang_1d, hht_args(r), {}, True)
     T['holospectrum'] = lambda r, s: (SP.holospectrum, (ro(r.uniform(0, 12, (40, 2))), ro(r.uniform(0, 4, (40, 2, 3))), ro(r.uniform(0, 2, (40, 2, 3))),
                                                         ro(np.linspace(1, 10, 5)), ro(np.linspace(.5, 3, 4))), dict(squash_time=gens.pick(r, [False, 'sum', 'mean'])), True)
+    # the same routines on data with missing values (NaN amplitudes / values, as produced by masking or projecting cycles):
+    # whatever they compute from them, the arrays passed in are still the caller's
+
+    def hht_nan_args(r):
+        f, a, e = hht_args(r)
+        a = np.array(a)
+        a[r.integers(0, 60, 5), r.integers(0, 3, 5)] = np.nan
+        return f, ro(a), e
+    T['hilberthuang:nan_amplitudes'] = lambda r, s: (SP.hilberthuang, hht_nan_args(r), dict(mode=gens.pick(r, ['energy', 'amplitude'])), True)
+    T['hilberthuang_1d:nan_amplitudes'] = lambda r, s: (SP.hilberthuang_1d, hht_nan_args(r), {}, True)
+
+    def holo_nan(r, s):
+        a2 = r.uniform(0, 2, (40, 2, 3))
+        a2[r.integers(0, 40, 4), r.integers(0, 2, 4), r.integers(0, 3, 4)] = np.nan
+        return (SP.holospectrum, (ro(r.uniform(0, 12, (40, 2))), ro(r.uniform(0, 4, (40, 2, 3))), ro(a2), ro(np.linspace(1, 10, 5)), ro(np.linspace(.5, 3, 4))),
+                dict(squash_time=gens.pick(r, [False, 'sum', 'mean'])), True)
+    T['holospectrum:nan_amplitudes'] = holo_nan
     T['define_hist_bins_from_data'] = lambda r, s: (SP.define_hist_bins_from_data, (ro(r.uniform(1, 9, 50)),), {}, True)
     T['get_cycle_vector'] = lambda r, s: (C.get_cycle_vector, (ro(phase(r)),), dict(return_good=bool(r.random() < .5)), True)
 
@@ -134,6 +157,32 @@ def build_table():
         lab = gens.label_vector(r)
         return (C.get_cycle_stat, (ro(lab), ro(r.standard_normal(len(lab)))), dict(func=np.max, out=gens.pick(r, [None, 'samples'])), True)
     T['get_cycle_stat'] = gcs
+
+    def gcs_nan(r, s):
+        lab = gens.label_vector(r)
+        v = r.standard_normal(len(lab))
+        v[r.integers(0, len(lab), 3)] = np.nan
+        return (C.get_cycle_stat, (ro(lab), ro(v)), dict(func=gens.pick(r, [np.max, np.nanmean, np.sum]), out=gens.pick(r, [None, 'samples'])), True)
+    T['get_cycle_stat:nan_values'] = gcs_nan
+
+    def bbp_nan(r, s):
+        p = r.uniform(0, 2 * np.pi, 200)
+        v = r.standard_normal((200, 2))
+        v[r.integers(0, 200, 4), r.integers(0, 2, 4)] = np.nan
+        return (C.bin_by_phase, (ro(p), ro(v)), dict(nbins=8), True)
+    T['bin_by_phase:nan_values'] = bbp_nan
+
+    def pal_nan(r, s):
+        p = phase(r)
+        v = np.sin(p)
+        v[r.integers(0, len(p), 3)] = np.nan
+        return (C.phase_align, (ro(p), ro(v)), dict(npoints=12), True)
+    T['phase_align:nan_values'] = pal_nan
+
+    def an_nan(r, s):
+        v = imfs(r)
+        return (U.amplitude_normalise, (ro(v),), dict(clip=True, interp_method=gens.pick(r, ['pchip', 'mono_pchip', 'splrep'])), True)
+    T['amplitude_normalise:interp_methods'] = an_nan
 
     def pal(r, s):
         p = phase(r)
@@ -191,6 +240,23 @@ def build_table():
             return a, st1
         return (run, (ro(p), ro(xs)), {}, True)
     T['Cycles_object_call_sequence'] = cyc_sequence
+
+    def cyc_match(r, s):
+        p = gens.synthetic_phase(r, ncycles=int(r.integers(8, 20)))
+
+        def run(ph, vals, conds):
+            with quiet():
+                cy = C.Cycles(ph, compute_timings=True)
+                cy.compute_cycle_metric('max_amp', vals, np.max)
+                sep = cy.get_matching_cycles(conds, ret_separate=True)
+                single = [cy.get_matching_cycles(c) for c in conds]
+            for j, c in enumerate(conds):
+                if np.asarray(sep).shape[1] != len(conds) or not np.array_equal(np.asarray(sep)[:, j].astype(bool), np.asarray(single[j]).astype(bool).reshape(-1)):
+                    raise AssertionError('column %d of the separate matches is not the match for condition %d (%s)' % (j, j, c))
+            return np.asarray(sep, dtype=float), cy.get_matching_cycles(conds)
+        conds = ['is_good==1', 'duration>%d' % int(r.integers(8, 30)), 'max_amp>%.2f' % float(r.uniform(-.5, 1)), 'start_sample>%d' % int(r.integers(10, 200))]
+        return (run, (ro(p), ro(r.standard_normal(len(p))), [conds[i] for i in r.permutation(4)[:int(r.integers(2, 5))]]), {}, True)
+    T['Cycles_matching_separate'] = cyc_match
     T['project_cycles_to_samples'] = lambda r, s: (CS.project_cycles_to_samples, (ro(np.arange(4.)), ro(np.repeat(np.arange(4), 3))), {}, True)
     T['amplitude_normalise'] = lambda r, s: (U.amplitude_normalise, (ro(imfs(r)),), dict(clip=bool(r.random() < .5)), True)
     T['wrap_phase'] = lambda r, s: (U.wrap_phase, (ro(np.cumsum(r.uniform(0, 1, 100))),), {}, True)
@@ -466,8 +532,67 @@ def one_round(ctx, table, round_seed, only=None):
     ctx.count('rounds')
 
 
+def result_digest(res):
+    if hasattr(res, 'toarray'):
+        res = res.toarray()
+    if isinstance(res, (tuple, list)):
+        return [result_digest(v) for v in res]
+    if isinstance(res, dict):
+        return {str(k): result_digest(res[k]) for k in sorted(res, key=str)}
+    if res is None:
+        return None
+    a = np.asarray(res)
+    if a.dtype == object:
+        return [result_digest(v) for v in a.reshape(-1)]
+    return [digest(np.ascontiguousarray(a)), list(a.shape)]
+
+
+def entry_digests(table, round_seed):
+    """Every deterministic entry called once on inputs that depend only on (round_seed, entry name): name -> result digest."""
+    out = {}
+    for name in sorted(table):
+        rng = np.random.default_rng([round_seed, zlib.crc32(name.encode())])
+        try:
+            func, args, kwargs, det = table[name](rng, shared_opts())
+            st = np.random.get_state()
+            np.random.seed(round_seed)
+            try:
+                with quiet():
+                    out[name] = result_digest(func(*args, **kwargs))
+            finally:
+                np.random.set_state(st)
+        except Exception as e:
+            out[name] = 'exception:' + type(e).__name__
+    return out
+
+
+def interpreter_probe(ctx, table, round_seed):
+    """"Repeating a deterministic call gives an identical result" across interpreters: the same calls in fresh interpreters that
+    differ only in what a user does not control (the string-hash seed of the interpreter) must reproduce the digests obtained here."""
+    here = entry_digests(table, round_seed)
+    for hs in ('random', str(1 + round_seed)):
+        env = dict(os.environ, EMD_REPO=REPO, PYTHONPATH=VERIF, PYTHONHASHSEED=hs)
+        try:
+            p = subprocess.run([sys.executable, '-W', 'ignore', '-m', 'emdverif.props.C19', str(round_seed)], capture_output=True, text=True,
+                               timeout=300, env=env, cwd=VERIF)
+            there = json.loads([l for l in p.stdout.splitlines() if l.startswith('DIGESTS ')][-1][8:])
+        except Exception as e:
+            ctx.count('interpreter_probe_failed')
+            ctx.note('fresh-interpreter probe failed: %s' % str(e)[:200])
+            continue
+        ctx.count('fresh_interpreter_runs')
+        for name in sorted(here):
+            ctx.count('fresh_interpreter_comparisons')
+            if json.loads(json.dumps(here[name])) != there.get(name):
+                ctx.violation('differs-between-interpreters:%s' % name, '%s: the same call on the same input gives a different result in a fresh '
+                              'interpreter (PYTHONHASHSEED=%s) than in this one (PYTHONHASHSEED=%s)' % (name, hs, os.environ.get('PYTHONHASHSEED')),
+                              {'kind': 'interpreter', 'round_seed': round_seed})
+
+
 def run_shard(ctx):
     table = build_table()
+    if ctx.shard % 4 == 1:
+        interpreter_probe(ctx, table, 1000 * ctx.seed + ctx.shard)
     rounds = [r for r in range(ROUNDS[ctx.tier]) if r % ctx.nshards == ctx.shard]
     for r in rounds:
         if ctx.out_of_time():
@@ -486,7 +611,8 @@ def finalize(agg, tier):
     if len(agg['sets'].get('entry_points_called', ())) < n:
         r.append('only %d of %d entry points were called' % (len(agg['sets'].get('entry_points_called', ())), n))
     for k, need in [('rounds', 16), ('layout_accept_checks', 100), ('layout_reject_checks', 100), ('vector_vs_column_checks', 50),
-                    ('mismatch_reject_checks', 50), ('repeat_calls', 500)]:
+                    ('mismatch_reject_checks', 50), ('repeat_calls', 500),
+                    ('fresh_interpreter_comparisons', 200)]:
         if c.get(k, 0) < need:
             r.append('%s: %d < %d' % (k, c.get(k, 0), need))
     return r
@@ -494,7 +620,16 @@ def finalize(agg, tier):
 
 def replay(ctx, case):
     table = build_table()
+    if case['kind'] == 'interpreter':
+        return interpreter_probe(ctx, table, case['round_seed'])
     if case['kind'] == 'entry':
         one_round(ctx, table, case['round_seed'], only=case['entry'])
     else:
         one_round(ctx, table, case['round_seed'])
+
+
+if __name__ == '__main__':
+    # fresh-interpreter side of interpreter_probe: prints the digests of one round
+    from emdverif.harness import bootstrap
+    bootstrap()
+    print('DIGESTS ' + json.dumps(entry_digests(build_table(), int(sys.argv[1]))))
